@@ -179,6 +179,22 @@ chk("C14", "model_checking",
     "validated by TLC", "DESIGN.md section 4, C14")
 
 
+chk("C01", "model_checking",
+    "The pipeline is specified as a state machine (spec/Pipeline.tla: every stage hands over or diagnoses; invariant "
+    "diagnosed => not executed; termination) and model-checked. Conformance: in-process under catch_unwind with a "
+    "watchdog, every string over a 52-character class alphabet (each predicate the scanner applies has "
+    "representatives, incl. non-ASCII alphabetic / numeric, NUL, CR) to length 3 (thorough 4), every token string "
+    "over 58 tokens to length 2 (3), random token soup, rendered random programs with random token / character "
+    "deletions, insertions, duplications and swaps, bracket nests to depth 64 with cuts, corner texts; the outcome "
+    "must be compiled | parse-diagnosed | compile-diagnosed. End to end through the binary with a probe statement "
+    "in front: the observation (diagnostics printed, probe executed) is validated by TLC (spec/PipelineTrace.tla) "
+    "against the machine's terminal observations.",
+    "Characters are covered by class representatives, not all scalars; the token stream itself is not compared "
+    "(the property demands totality).",
+    "TLA+ pipeline state machine model-checked by TLC; bounded-exhaustive and random texts executed by the real "
+    "front end; end-to-end observations trace-validated by TLC", "DESIGN.md section 4, C01")
+
+
 def main():
     props = [json.loads(l)["id"] for l in open(os.path.join(VERIF, "properties.jsonl"))]
     na = [{"property_id": p, "reason": NOT_APPLICABLE.get(p, "check not built yet in this round (planned, see DESIGN.md section 8)")}
